@@ -143,6 +143,37 @@ WINDOWS = {'in': (NOW - 1000, NOW + 1000), 'startsNow': (NOW, NOW + 1000),
            'endsNow': (NOW - 1000, NOW), 'expired': (NOW - 1000, NOW - 1)}
 
 
+ADDR6 = 'fd00::1:2:3'
+JUMP = '10.9.9.9'
+
+
+def via_forms(via, name, addr):
+    """Spellings of a pattern that matches through the name as dialled,
+    through the text of the address, through a CIDR range, or everywhere
+    but in a CIDR range."""
+    v6 = ':' in addr
+    if via == 'name':
+        first, dom = name.split('.', 1)
+        return [('plain', name), ('hashed', hashed(name)),
+                ('wild-prefix', f'{first}.*'), ('wild-suffix', f'*.{dom}'),
+                ('list', f'zz.example,{name}'),
+                ('neg-other', f'{name},!zz.example')]
+    if via == 'addrtext':
+        wild = addr[:-1] + '?'
+        return [('addr', addr), ('hashed-addr', hashed(addr)),
+                ('wild-addr', wild), ('list-addr', f'zz.example,{addr}'),
+                ('wild-addr-star', addr[:-1] + '*')]
+    nets = ['fd00::/16', 'fd00::1:2:3/128', 'fd00:0:0:0:0:1:2:0/112'] if v6 \
+        else ['10.1.0.0/16', '10.1.2.3/32', '10.0.0.0/8']
+    if via == 'cidr':
+        return [(f'cidr-{n}', n) for n in nets] + \
+            [('cidr-list', f'zz.example,{nets[0]}'),
+             # an address literal inside a pattern entry is a host route
+             ('literal-as-cidr', f'{addr},!zz.example')]
+    return [(f'negcidr-{n}', f'*,!{n}') for n in nets] + \
+        [('negcidr-literal', f'*,!{addr}')]
+
+
 def make_presentation(pres, ktype, catype, principal_host, variant,
                       real_host=None):
     """-> (keypair to give the server, description dict)."""
@@ -158,7 +189,7 @@ def make_presentation(pres, ktype, catype, principal_host, variant,
                             ][variant % 2],
                  'other': [['zz.example'], [ADDR + '9'],
                            [principal_host + '.evil'],
-                           ['*.' + principal_host.split('.', 1)[1]]
+                           ['*.' + (principal_host.split('.', 1) + ['example'])[1]]
                            ][variant % 4],
                  'empty': []}[pres['princ']]
         if pres['princ'] == 'other' and principal_host == ADDR:
@@ -238,6 +269,14 @@ def attempt(case, variant=0, workdir=None, opt=None):
     use_alias = (v // 3) % 5 == 1
     by_addr = (v // 3) % 5 == 2 and not use_alias
     real_host = ADDR if by_addr else HOST
+    shape = case.get('shape', 'na')
+    listen_addr = ADDR
+    if shape != 'na':
+        # connection shape x form of the host as dialled
+        use_alias = False
+        by_addr = case['hostform'] != 'name'
+        listen_addr = ADDR6 if case['hostform'] == 'ip6' else ADDR
+        real_host = listen_addr if by_addr else HOST
     lookup_host = ALIAS if use_alias else real_host
     port = case['port']
     P = PORTS[port]
@@ -252,13 +291,17 @@ def attempt(case, variant=0, workdir=None, opt=None):
         import random as _random
         _random.Random(v).shuffle(lines)
     for i, ln in enumerate(lines):
-        opts = pattern_forms(ln['match'], port, lookup_host, real_host)
-        if by_addr:
+        if shape != 'na':
+            opts = via_forms(ln['via'], lookup_host, listen_addr)
+        else:
+            opts = pattern_forms(ln['match'], port, lookup_host, real_host)
+        if by_addr and shape == 'na':
             # name == address: an address literal inside a *pattern* entry
             # (one with * ? ! /) is a /32 CIDR pattern and matches whatever
             # the port is; upper-casing does nothing
             opts = [o for o in opts if o[0] not in ('neg-other', 'case')]
-        fname, pat = opts[(v + 7 * i) % len(opts)]
+        ff = case.get('force_forms')
+        fname, pat = opts[(ff[i] if ff else v + 7 * i) % len(opts)]
         kt = catype if ln['key'].startswith('CA') else ktype
         ktxt = ' '.join(pubtext(key(ln['key'], kt)))
         marker = {'plain': '', 'ca': '@cert-authority ',
@@ -470,14 +513,39 @@ def attempt(case, variant=0, workdir=None, opt=None):
     mitm = H.Mitm('ecdh', ())
     loop = new_loop()
     loop.net.dns[HOST] = ADDR
-    mitm.install(loop)
+    if shape != 'tunnel':
+        mitm.install(loop)
+    r.info['shape'] = (shape, case.get('hostform'))
+    r.jump_forwarded = []
+
+    class Jump(asyncssh.SSHServer):
+        """Jump host: no authentication, forwards direct-tcpip."""
+
+        def begin_auth(self, username):
+            return False
+
+        def connection_requested(self, dest_host, dest_port, orig_host,
+                                 orig_port):
+            r.jump_forwarded.append((dest_host, dest_port))
+            return True
     clock.now = NOW
     st = {}
 
     async def go():
         st['acc'] = await asyncssh.listen(
-            ADDR, P, server_factory=Server, server_host_keys=[kp],
+            listen_addr, P, server_factory=Server, server_host_keys=[kp],
             kex_algs=['curve25519-sha256'])
+        tun = {}
+        if shape == 'tunnel':
+            # a real tunnelled connection: through another SSH connection
+            # (no peer address of its own at the inner client)
+            st['jacc'] = await asyncssh.listen(
+                JUMP, 22, server_factory=Jump,
+                server_host_keys=[key('JUMP', 'ed25519')])
+            st['jump'] = await asyncssh.connect(
+                JUMP, 22, known_hosts=None, config=None, client_keys=None,
+                username='j')
+            tun = {'tunnel': st['jump']}
         if sources:
             src_kw = {'config': config_arg}     # known_hosts not given
         else:
@@ -485,8 +553,9 @@ def attempt(case, variant=0, workdir=None, opt=None):
         conn = await asyncssh.connect(
             real_host, P, client_keys=None,
             client_factory=Client, username='u', password=PASSWORD,
-            kex_algs=['curve25519-sha256'], **src_kw, **ckw)
+            kex_algs=['curve25519-sha256'], **src_kw, **ckw, **tun)
         st['conn'] = conn
+        r.peer_addr = getattr(conn, '_peer_addr', None)
         r.accepted = True
         return conn
 
@@ -499,6 +568,10 @@ def attempt(case, variant=0, workdir=None, opt=None):
             r.exc = exc
         if 'conn' in st:
             st['conn'].abort()
+        if 'jump' in st:
+            st['jump'].abort()
+        if 'jacc' in st:
+            st['jacc'].close()
         if 'acc' in st:
             st['acc'].close()
         try:
